@@ -35,34 +35,48 @@ import (
 // never act at the same instant (500 ms grid / odd multiples of 250 ms).
 
 const (
-	c15rSource = "source:6379"
-	c15rTarget = "target:6379"
-	c15rGroup  = "grp1"
+	c15rSource  = "source:6379"
+	c15rSource2 = "source2:6379"
+	c15rTarget  = "target:6379"
+	c15rTarget2 = "target2:6379"
+	c15rGroup   = "grp1"
 )
 
 type c15rScenario struct {
-	Kind      string     `json:"kind"` // "run"
-	TimeoutMs int        `json:"lease_timeout_ms"`
-	RenewMs   int        `json:"lease_renew_interval_ms"`
-	HorizonS  int        `json:"horizon_s"`
-	PhaseMs   int        `json:"phase_ms"`
-	StopMs    int        `json:"syncer_stop_ms"`  // how long the (stubbed) leader syncer needs to stop: the stop-then-resign path takes that long
-	Fault     *c15tFault `json:"fault,omitempty"` // kinds: error-reply (run of calls), cut / reply-lost (one call, the connection dies; the instance restarts and reconnects)
+	Kind      string      `json:"kind"` // "run"
+	TimeoutMs int         `json:"lease_timeout_ms"`
+	RenewMs   int         `json:"lease_renew_interval_ms"`
+	HorizonS  int         `json:"horizon_s"`
+	PhaseMs   int         `json:"phase_ms"`
+	StopMs    int         `json:"syncer_stop_ms"`   // how long the (stubbed) leader syncer needs to stop: the stop-then-resign path takes that long
+	Fault     *c15tFault  `json:"fault,omitempty"`  // on the election calls of one instance for one shard (fault.shard): error-reply (run of calls), cut / reply-lost (one call, the connection dies; the instance restarts and reconnects)
+	Refuse    *c15rRefuse `json:"refuse,omitempty"` // address[0] of the input refuses NEW connections for a while (established ones are not affected)
 }
+
+// c15rRefuse: the first configured input address does not accept new connections.
+type c15rRefuse struct {
+	FromConn int  `json:"from_connection,omitempty"` // beginning with the n-th connection attempt to address[0] (1-based, whole run) ...
+	AtFault  bool `json:"at_fault,omitempty"`        // ... or from the instant the call fault hits
+	ForMs    int  `json:"for_ms"`                    // -1: that one attempt only; 0: for good; else this long
+}
+
+const c15rShards = 2
 
 type c15rInst struct {
 	id       string
 	sc       *SyncerCmd
-	active   bool  // its stub RunLeader is running (until it has wound down)
-	stopping bool  // Stop was called on it: the instance has given up leadership and is winding the syncer down
-	lastOK   int64 // ms of the last delivered ":1" of the campaign script
-	calls    int
+	active   [c15rShards]bool  // its stub RunLeader for that shard is running (until it has wound down)
+	stopping [c15rShards]bool  // Stop was called on it: the instance has given up that leadership and is winding the syncer down
+	lastOK   [c15rShards]int64 // ms of the last delivered ":1" of the campaign script for that shard's lease
+	calls    [c15rShards]int
+	store    [c15rShards]int // which store its election calls for that shard went to last (-1 none yet)
 }
 
 type c15rHarness struct {
 	stopFor time.Duration
 	mu      sync.Mutex
 	inst    []*c15rInst
+	addrs   []string
 	start   time.Time
 	trace   []string
 	onCh    func(where string) // invariant check, called with mu held
@@ -71,11 +85,25 @@ type c15rHarness struct {
 
 func (h *c15rHarness) ms() int64 { return time.Since(h.start).Milliseconds() }
 
+// c15rGate stands in front of a store double and may refuse new connections.
+type c15rGate struct {
+	inner    *redisd.Server
+	refusing func() bool
+}
+
+func (g *c15rGate) Accept(c *vnet.Conn) (vnet.Handler, error) {
+	if g.refusing != nil && g.refusing() {
+		return nil, fmt.Errorf("connection refused")
+	}
+	return g.inner.Accept(c)
+}
+
 // c15rStub is the syncer with a stubbed data path.
 type c15rStub struct {
-	h    *c15rHarness
-	stop chan struct{}
-	once sync.Once
+	h     *c15rHarness
+	shard int
+	stop  chan struct{}
+	once  sync.Once
 }
 
 func (s *c15rStub) owner() int {
@@ -96,27 +124,27 @@ func (s *c15rStub) RunLeader() error {
 	i := s.owner()
 	h := s.h
 	h.mu.Lock()
-	if i >= 0 {
-		h.inst[i].active = true
-		h.trace = append(h.trace, fmt.Sprintf("t=%dms i%d leader syncer RUNS", h.ms(), i+1))
+	if i >= 0 && s.shard >= 0 {
+		h.inst[i].active[s.shard] = true
+		h.trace = append(h.trace, fmt.Sprintf("t=%dms i%d shard%d leader syncer RUNS", h.ms(), i+1, s.shard+1))
 	} else {
-		h.trace = append(h.trace, "leader syncer of an unknown instance")
+		h.trace = append(h.trace, "leader syncer of an unknown instance / shard")
 	}
 	h.onCh("leader syncer started")
 	h.mu.Unlock()
 	<-s.stop
 	h.mu.Lock()
-	if i >= 0 {
-		h.inst[i].stopping = true
+	if i >= 0 && s.shard >= 0 {
+		h.inst[i].stopping[s.shard] = true
 	}
 	h.mu.Unlock()
 	if h.stopFor > 0 {
 		time.Sleep(h.stopFor) // the data path takes its time to wind down
 	}
 	h.mu.Lock()
-	if i >= 0 {
-		h.inst[i].active, h.inst[i].stopping = false, false
-		h.trace = append(h.trace, fmt.Sprintf("t=%dms i%d leader syncer has stopped", h.ms(), i+1))
+	if i >= 0 && s.shard >= 0 {
+		h.inst[i].active[s.shard], h.inst[i].stopping[s.shard] = false, false
+		h.trace = append(h.trace, fmt.Sprintf("t=%dms i%d shard%d leader syncer has stopped", h.ms(), i+1, s.shard+1))
 	}
 	h.mu.Unlock()
 	return nil
@@ -139,27 +167,62 @@ func (s *c15rStub) ServiceReplica(req *pb.SyncRequest, stream pb.ApiService_Sync
 	return nil
 }
 
-func c15rExec(t *testing.T, scn c15rScenario) (mc.Result, [2]int) {
-	var calls [2]int
+// c15rExec runs one execution; it also returns the election calls per instance and shard and the number of
+// connections address[0] accepted.
+func c15rExec(t *testing.T, scn c15rScenario) (mc.Result, [2][c15rShards]int, int) {
+	var calls [2][c15rShards]int
+	accepted0 := 0
 	var res *mc.Result
 	var machinery string
 	found := map[string]mc.Result{}
-	h := &c15rHarness{}
+	h := &c15rHarness{addrs: []string{c15rSource, c15rSource2}}
 	events := 0
 	msg := bubble(t, func() {
 		vnet.Reset()
-		srv := redisd.New(c15rSource)
-		c15StrictStore(srv)
+		// a standalone input with two addresses: two independent source shards. The registry and the leases of
+		// ALL shards live in the Redis NewRedisCluster connects to for a standalone configuration: address[0].
+		stores := []*redisd.Server{redisd.New(c15rSource), redisd.New(c15rSource2)}
+		for _, st := range stores {
+			c15StrictStore(st)
+		}
 		h.start = time.Now()
 		h.stopFor = time.Duration(scn.StopMs) * time.Millisecond
+		// ---- address[0] may refuse new connections
+		attempts0, refuseOn, refuseUntil, refuseOnce := 0, false, int64(0), false
+		gate := &c15rGate{inner: stores[0]}
+		gate.refusing = func() bool { // called from the dialling instance's goroutine
+			h.mu.Lock()
+			defer h.mu.Unlock()
+			attempts0++
+			if r := scn.Refuse; r != nil && !refuseOn && r.FromConn > 0 && attempts0 == r.FromConn {
+				refuseOn = true
+				switch {
+				case r.ForMs < 0:
+					refuseOnce = true
+				case r.ForMs > 0:
+					refuseUntil = h.ms() + int64(r.ForMs)
+				}
+			}
+			no := refuseOn && (refuseOnce || refuseUntil == 0 || h.ms() < refuseUntil)
+			if refuseOnce {
+				refuseOn, refuseOnce = false, false
+			}
+			if no {
+				h.trace = append(h.trace, fmt.Sprintf("t=%dms address[0] REFUSES a new connection", h.ms()))
+			} else {
+				accepted0++
+			}
+			return no
+		}
+		vnet.Register(c15rSource, gate)
 		// ---- process configuration, as the YAML loader + fix() would leave it
 		cc := &config.ClusterConfig{GroupName: c15rGroup, LeaseTimeout: time.Duration(scn.TimeoutMs) * time.Millisecond, LeaseRenewInterval: time.Duration(scn.RenewMs) * time.Millisecond}
 		if err := config.VerifClusterFix(cc); err != nil {
 			machinery = "config fix: " + err.Error()
 			return
 		}
-		mkCfg := func(addr string) *config.RedisConfig {
-			rc := config.RedisConfig{Addresses: []string{addr}, Type: config.RedisTypeStandalone, Otype: config.RedisTypeStandalone, Version: "7.2.0",
+		mkCfg := func(addr ...string) *config.RedisConfig {
+			rc := config.RedisConfig{Addresses: addr, Type: config.RedisTypeStandalone, Otype: config.RedisTypeStandalone, Version: "7.2.0",
 				ClusterOptions: &config.RedisClusterOptions{HandleMoveErr: true, HandleAskErr: true}}
 			if err := redis.FixTopology(&rc); err != nil {
 				panic(err)
@@ -168,8 +231,8 @@ func c15rExec(t *testing.T, scn c15rScenario) (mc.Result, [2]int) {
 		}
 		tr := true
 		g := config.GetSyncerConfig()
-		g.Input = &config.InputConfig{Redis: mkCfg(c15rSource)}
-		g.Output = &config.OutputConfig{Redis: mkCfg(c15rTarget), Replay: config.ReplayConfig{ResumeFromBreakPoint: &tr, ReplayTransaction: &tr}}
+		g.Input = &config.InputConfig{Redis: mkCfg(c15rSource, c15rSource2)}
+		g.Output = &config.OutputConfig{Redis: mkCfg(c15rTarget, c15rTarget2), Replay: config.ReplayConfig{ResumeFromBreakPoint: &tr, ReplayTransaction: &tr}}
 		g.Channel = &config.ChannelConfig{Type: "memory"}
 		g.Cluster = cc
 		g.Server.GracefullStopTimeout = 5 * time.Second
@@ -177,14 +240,36 @@ func c15rExec(t *testing.T, scn c15rScenario) (mc.Result, [2]int) {
 
 		wantTTL := fmt.Sprintf("%d", scn.TimeoutMs/1000) // one lease period = the whole seconds of leaseTimeout
 		ttlMs := int64(scn.TimeoutMs/1000) * 1000
-		wantKey := fmt.Sprintf("/redis-gunyu/%s/input-election/%s/", c15rGroup, c15rSource)
+		var wantKey [c15rShards]string
+		for sh, a := range h.addrs {
+			wantKey[sh] = fmt.Sprintf("/redis-gunyu/%s/input-election/%s/", c15rGroup, a)
+		}
+		shardOfKey := func(k string) int {
+			for sh := range wantKey {
+				if wantKey[sh] == k {
+					return sh
+				}
+			}
+			return -1
+		}
 
-		h.inst = []*c15rInst{{id: "10.0.0.1:18001", lastOK: -1}, {id: "10.0.0.2:18001", lastOK: -1}}
+		h.inst = []*c15rInst{{id: "10.0.0.1:18001"}, {id: "10.0.0.2:18001"}}
 		for _, in := range h.inst {
 			in.sc = NewSyncerCmd()
+			for sh := 0; sh < c15rShards; sh++ {
+				in.lastOK[sh], in.store[sh] = -1, -1
+			}
 		}
 		prev := verifNewSyncer
-		verifNewSyncer = func(cfg syncer.SyncerConfig) syncer.Syncer { return &c15rStub{h: h, stop: make(chan struct{})} }
+		verifNewSyncer = func(cfg syncer.SyncerConfig) syncer.Syncer {
+			sh := -1
+			for i, a := range h.addrs {
+				if cfg.Input.Address() == a {
+					sh = i
+				}
+			}
+			return &c15rStub{h: h, shard: sh, stop: make(chan struct{})}
+		}
 		defer func() { verifNewSyncer = prev }()
 
 		viol := func(clause, sig string, d map[string]interface{}) {
@@ -195,140 +280,189 @@ func c15rExec(t *testing.T, scn c15rScenario) (mc.Result, [2]int) {
 			h.trace = append(h.trace, fmt.Sprintf("t=%dms VIOLATION %s", h.ms(), sig))
 			found[sig] = mc.Violation(clause, sig, d)
 		}
-		// deferred store reads (the hooks run under the server lock)
 		h.onCh = func(where string) {
 			if h.ending { // the horizon is over: the processes are being shut down, election calls are no longer tracked
 				return
 			}
 			now := h.ms()
-			n := 0
-			for i, in := range h.inst {
-				if !in.active {
-					continue
+			for sh := 0; sh < c15rShards; sh++ {
+				n := 0
+				for i, in := range h.inst {
+					if !in.active[sh] {
+						continue
+					}
+					within := in.lastOK[sh] >= 0 && now < in.lastOK[sh]+ttlMs // its lease period is still running
+					if within {
+						n++
+					}
+					// a syncer that is being stopped is no longer acting on leadership; how long the stop takes is not the lease's business
+					if !within && !in.stopping[sh] {
+						viol("an instance keeps its leader syncer running although its lease period has run out", "C15:run:leader-past-lease",
+							map[string]interface{}{"instance": i + 1, "shard": h.addrs[sh], "now_ms": now, "last_success_ms": in.lastOK[sh], "at": where})
+					}
 				}
-				within := in.lastOK >= 0 && now < in.lastOK+ttlMs // its lease period is still running
-				if within {
-					n++
+				if n > 1 {
+					viol("two instances run a leader syncer for the same source shard while both lease periods are running", "C15:run:two-active-leaders", map[string]interface{}{"shard": h.addrs[sh], "now_ms": now, "at": where})
 				}
-				// a syncer that is being stopped is no longer acting on leadership; how long the stop takes is not the lease's business
-				if !within && !in.stopping {
-					viol("an instance keeps its leader syncer running although its lease period has run out", "C15:run:leader-past-lease",
-						map[string]interface{}{"instance": i + 1, "now_ms": now, "last_success_ms": in.lastOK, "at": where})
+				// contenders of one shard must meet in ONE store
+				st := -1
+				for i, in := range h.inst {
+					if in.store[sh] < 0 {
+						continue
+					}
+					if st >= 0 && in.store[sh] != st {
+						viol("two instances contend for the lease of one source shard in DIFFERENT stores: each of them is granted the lease", "C15:run:split-lease-stores",
+							map[string]interface{}{"shard": h.addrs[sh], "instance": i + 1, "its_store": h.addrs[in.store[sh]], "other_store": h.addrs[st], "at": where})
+					}
+					st = in.store[sh]
 				}
-			}
-			if n > 1 {
-				viol("two instances run a leader syncer for the same source while both lease periods are running", "C15:run:two-active-leaders", map[string]interface{}{"now_ms": now, "at": where})
 			}
 		}
-		storeCheck := func(where string) { // harness goroutine only (takes the server lock)
-			keys := srv.Keys(0)
-			var leases []string
-			for _, k := range keys {
-				if strings.Contains(k, "election") {
-					leases = append(leases, k)
+		storeCheck := func(where string) { // harness goroutine only (takes the server locks)
+			type held struct {
+				id    string
+				store int
+			}
+			var leases [c15rShards][]held
+			var strange []string
+			for d, st := range stores {
+				for _, k := range st.Keys(0) {
+					if !strings.Contains(k, "election") {
+						continue
+					}
+					sh := shardOfKey(k)
+					if sh < 0 {
+						strange = append(strange, h.addrs[d]+": "+k)
+						continue
+					}
+					if v := st.Get(0, k); v != nil {
+						leases[sh] = append(leases[sh], held{string(v.Str), d})
+					}
 				}
 			}
 			h.mu.Lock()
 			defer h.mu.Unlock()
-			for _, k := range leases {
-				if k != wantKey {
-					viol("the lease of the source shard is kept under another key than /redis-gunyu/<group>/input-election/<shard master>/ : contenders of one shard may not meet", "C15:run:unexpected-lease-key",
-						map[string]interface{}{"key": k, "expected": wantKey, "at": where})
+			if len(strange) > 0 {
+				viol("the lease of a source shard is kept under another key than /redis-gunyu/<group>/input-election/<shard master>/ : contenders of one shard may not meet", "C15:run:unexpected-lease-key",
+					map[string]interface{}{"keys": strange, "at": where})
+			}
+			for sh := 0; sh < c15rShards; sh++ {
+				if len(leases[sh]) > 1 {
+					viol("unexpired leases for one source shard exist in more than one store at the same time", "C15:run:split-lease-stores",
+						map[string]interface{}{"shard": h.addrs[sh], "leases": fmt.Sprintf("%v", leases[sh]), "at": where})
 				}
-			}
-			if len(leases) > 1 {
-				viol("more than one lease key exists for one source shard", "C15:run:unexpected-lease-key", map[string]interface{}{"keys": leases, "at": where})
-			}
-			holder := ""
-			if v := srv.Get(0, wantKey); v != nil {
-				holder = string(v.Str)
-			}
-			for i, in := range h.inst {
-				if in.active && in.lastOK >= 0 && h.ms() < in.lastOK+ttlMs && holder != in.id {
-					viol("an instance runs its leader syncer, its lease period has not run out, but the store's lease is not held under its own id: it resigned before the syncer had stopped, somebody removed / took its lease, or it contends under another id",
-						"C15:run:leader-without-lease", map[string]interface{}{"instance": i + 1, "its_id": in.id, "lease_holder": holder, "now_ms": h.ms(), "at": where})
+				for i, in := range h.inst {
+					if !(in.active[sh] && in.lastOK[sh] >= 0 && h.ms() < in.lastOK[sh]+ttlMs) {
+						continue
+					}
+					mine := false
+					for _, l := range leases[sh] {
+						if l.id == in.id {
+							mine = true
+						}
+					}
+					if !mine {
+						viol("an instance runs its leader syncer, its lease period has not run out, but no store holds the shard's lease under its own id: it resigned before the syncer had stopped, somebody removed / took its lease, or it contends under another id",
+							"C15:run:leader-without-lease", map[string]interface{}{"instance": i + 1, "its_id": in.id, "shard": h.addrs[sh], "leases": fmt.Sprintf("%v", leases[sh]), "now_ms": h.ms(), "at": where})
+					}
 				}
 			}
 			h.onCh(where)
 		}
 
-		// ---- faults on election calls, identified by the contender id in ARGV[1]
+		// ---- faults on election calls, identified by the contender id in ARGV[1] and the lease key
 		ending := false
-		plan := srv.PlanRef()
-		plan.OnRequest = func(r *redisd.Req) {
-			if r.Name() != "eval" || len(r.Argv) < 6 {
-				return
-			}
-			who := -1
-			for i, in := range h.inst {
-				if string(r.Argv[4]) == in.id {
-					who = i
+		for d := range stores {
+			d := d
+			srv := stores[d]
+			plan := srv.PlanRef()
+			plan.OnRequest = func(r *redisd.Req) {
+				if r.Name() != "eval" || len(r.Argv) < 6 {
+					return
 				}
-			}
-			h.mu.Lock()
-			end := ending
-			if who < 0 && !end {
-				viol("an election call carries a contender id that is not the instance's Server.ListenPeer", "C15:run:unexpected-contender-id", map[string]interface{}{"id": string(r.Argv[4])})
-			}
-			isCampaign := strings.Contains(string(r.Argv[1]), "EXPIRE")
-			if who >= 0 && !end && isCampaign && string(r.Argv[5]) != wantTTL {
-				viol("the lease period handed to the store differs from the whole seconds of leaseTimeout", "C15:run:store-ttl", map[string]interface{}{"ttl_argument": string(r.Argv[5]), "expected_s": wantTTL})
-			}
-			if who >= 0 && !end && string(r.Argv[3]) != wantKey {
-				viol("the lease of the source shard is kept under another key than /redis-gunyu/<group>/input-election/<shard master>/ : contenders of one shard may not meet", "C15:run:unexpected-lease-key",
-					map[string]interface{}{"key": string(r.Argv[3]), "expected": wantKey})
-			}
-			c := 0
-			if who >= 0 && !end {
-				h.inst[who].calls++
-				n := h.inst[who].calls
-				if f := scn.Fault; f != nil && who == f.Victim-1 {
-					switch f.Kind {
-					case "error-reply":
-						if n >= f.Start && (f.Len == 0 || n < f.Start+f.Len) {
-							c = 1
-						}
-					case "cut":
-						if n == f.Start {
-							c = 3
-						}
-					case "reply-lost":
-						if n == f.Start {
-							c = 2
-						}
+				who := -1
+				for i, in := range h.inst {
+					if string(r.Argv[4]) == in.id {
+						who = i
 					}
 				}
-				kind := "campaign/renew"
-				if !isCampaign {
-					kind = "resign"
+				sh := shardOfKey(string(r.Argv[3]))
+				h.mu.Lock()
+				end := ending
+				if who < 0 && !end {
+					viol("an election call carries a contender id that is not the instance's Server.ListenPeer", "C15:run:unexpected-contender-id", map[string]interface{}{"id": string(r.Argv[4])})
 				}
-				h.trace = append(h.trace, fmt.Sprintf("t=%dms i%d %s -> %s", h.ms(), who+1, kind, []string{"delivered", "error reply (not executed)", "executed, reply lost, connection dead", "never reaches the store, connection dead"}[c]))
-				events++
-			}
-			h.mu.Unlock()
-			if who < 0 || end {
-				return
-			}
-			seq := r.Seq
-			if c == 1 || c == 3 {
-				if plan.FailAt == nil {
-					plan.FailAt = map[int]string{}
+				isCampaign := strings.Contains(string(r.Argv[1]), "EXPIRE")
+				if who >= 0 && !end && isCampaign && string(r.Argv[5]) != wantTTL {
+					viol("the lease period handed to the store differs from the whole seconds of leaseTimeout", "C15:run:store-ttl", map[string]interface{}{"ttl_argument": string(r.Argv[5]), "expected_s": wantTTL})
 				}
-				plan.FailAt[seq] = "ERR injected failure"
-			}
-			plan.AfterReq = func(r2 *redisd.Req) {
-				if r2.Seq != seq {
+				if who >= 0 && !end && sh < 0 {
+					viol("the lease of a source shard is kept under another key than /redis-gunyu/<group>/input-election/<shard master>/ : contenders of one shard may not meet", "C15:run:unexpected-lease-key",
+						map[string]interface{}{"key": string(r.Argv[3])})
+				}
+				c := 0
+				if who >= 0 && sh < 0 && !end {
+					events++
+				}
+				if who >= 0 && sh >= 0 && !end {
+					in := h.inst[who]
+					in.store[sh] = d
+					in.calls[sh]++
+					n := in.calls[sh]
+					if f := scn.Fault; f != nil && who == f.Victim-1 && sh == f.Shard {
+						switch f.Kind {
+						case "error-reply":
+							if n >= f.Start && (f.Len == 0 || n < f.Start+f.Len) {
+								c = 1
+							}
+						case "cut":
+							if n == f.Start {
+								c = 3
+							}
+						case "reply-lost":
+							if n == f.Start {
+								c = 2
+							}
+						}
+						if c != 0 && n == f.Start && scn.Refuse != nil && scn.Refuse.AtFault && !refuseOn {
+							refuseOn = true
+							if scn.Refuse.ForMs > 0 {
+								refuseUntil = h.ms() + int64(scn.Refuse.ForMs)
+							}
+						}
+					}
+					kind := "campaign/renew"
+					if !isCampaign {
+						kind = "resign"
+					}
+					h.trace = append(h.trace, fmt.Sprintf("t=%dms i%d shard%d %s @%s -> %s", h.ms(), who+1, sh+1, kind, h.addrs[d], []string{"delivered", "error reply (not executed)", "executed, reply lost, connection dead", "never reaches the store, connection dead"}[c]))
+					events++
+				}
+				h.mu.Unlock()
+				if who < 0 || sh < 0 || end {
 					return
 				}
-				plan.AfterReq = nil
-				if c == 2 || c == 3 {
-					srv.KillConnLocked(r2.Conn, true)
-					return
+				seq := r.Seq
+				if c == 1 || c == 3 {
+					if plan.FailAt == nil {
+						plan.FailAt = map[int]string{}
+					}
+					plan.FailAt[seq] = "ERR injected failure"
 				}
-				if isCampaign && r2.Executed && !r2.Failed && strings.HasPrefix(r2.Reply, ":1") {
-					h.mu.Lock()
-					h.inst[who].lastOK = h.ms()
-					h.mu.Unlock()
+				plan.AfterReq = func(r2 *redisd.Req) {
+					if r2.Seq != seq {
+						return
+					}
+					plan.AfterReq = nil
+					if c == 2 || c == 3 {
+						srv.KillConnLocked(r2.Conn, true)
+						return
+					}
+					if isCampaign && r2.Executed && !r2.Failed && strings.HasPrefix(r2.Reply, ":1") {
+						h.mu.Lock()
+						h.inst[who].lastOK[sh] = h.ms()
+						h.mu.Unlock()
+					}
 				}
 			}
 		}
@@ -374,11 +508,11 @@ func c15rExec(t *testing.T, scn c15rScenario) (mc.Result, [2]int) {
 			in.sc.waitCloser.Close(nil)
 		}
 		wg.Wait()
-		calls = [2]int{h.inst[0].calls, h.inst[1].calls}
-		if events == 0 {
-			machinery = "harness: the store never received an election call (the real run() did not get as far as a campaign)"
+		calls = [2][c15rShards]int{h.inst[0].calls, h.inst[1].calls}
+		if events == 0 && scn.Refuse == nil {
+			machinery = "harness: the stores never received an election call (the real run() did not get as far as a campaign)"
 		}
-		for _, sig := range []string{"C15:run:two-active-leaders", "C15:run:leader-without-lease", "C15:run:leader-past-lease", "C15:run:unexpected-lease-key", "C15:run:unexpected-contender-id", "C15:run:store-ttl"} {
+		for _, sig := range []string{"C15:run:split-lease-stores", "C15:run:two-active-leaders", "C15:run:leader-without-lease", "C15:run:leader-past-lease", "C15:run:unexpected-lease-key", "C15:run:unexpected-contender-id", "C15:run:store-ttl"} {
 			if r, ok := found[sig]; ok && res == nil {
 				var all []string
 				for k := range found {
@@ -390,8 +524,10 @@ func c15rExec(t *testing.T, scn c15rScenario) (mc.Result, [2]int) {
 				res = &r
 			}
 		}
-		if len(srv.MachineryErrors) > 0 {
-			machinery = "double: " + strings.Join(srv.MachineryErrors, "; ")
+		for _, st := range stores {
+			if len(st.MachineryErrors) > 0 {
+				machinery = "double: " + strings.Join(st.MachineryErrors, "; ")
+			}
 		}
 	})
 	if msg != "" {
@@ -401,12 +537,15 @@ func c15rExec(t *testing.T, scn c15rScenario) (mc.Result, [2]int) {
 		fmt.Fprintln(os.Stderr, strings.Join(h.trace, "\n"))
 	}
 	if machinery != "" {
-		return mc.Result{Verdict: "machinery", Clause: machinery, Detail: h.trace}, calls
+		return mc.Result{Verdict: "machinery", Clause: machinery, Detail: h.trace}, calls, accepted0
 	}
 	if res != nil {
-		return *res, calls
+		return *res, calls, accepted0
 	}
-	return mc.OK(mc.Hash(h.trace...), scn.Fault != nil, events), calls
+	// the two shard loops of one instance act at the same instants: the order of their lines is not part of the observation
+	tr := append([]string(nil), h.trace...)
+	sort.Strings(tr)
+	return mc.OK(mc.Hash(tr...), scn.Fault != nil || scn.Refuse != nil, events), calls, accepted0
 }
 
 type c15rConfig struct {
@@ -433,18 +572,50 @@ func c15rConfigs(tier string) []c15rConfig {
 	}
 }
 
-func c15rFaults(calls [2]int, tier string) []c15tFault {
-	var out []c15tFault
+// c15rCase is one element of the fault enumeration of the real-run family.
+type c15rCase struct {
+	fault  *c15tFault
+	refuse *c15rRefuse
+}
+
+func c15rCases(calls [2][c15rShards]int, accepted0 int, tier string) []c15rCase {
+	var out []c15rCase
 	runs := []int{2, 0}
+	refuse := []int{2000, 0}
 	if tier == "thorough" {
 		runs = []int{1, 2, 3, 4, 6, 0}
+		refuse = []int{-1, 2000, 4000, 0}
 	}
+	// (1) election-call faults of one instance for one shard's lease
 	for v := 1; v <= 2; v++ {
-		for st := 1; st <= calls[v-1]; st++ {
-			for _, l := range runs {
-				out = append(out, c15tFault{Victim: v, Kind: "error-reply", Start: st, Len: l})
+		for sh := 0; sh < c15rShards; sh++ {
+			for st := 1; st <= calls[v-1][sh]; st++ {
+				for _, l := range runs {
+					if sh > 0 && tier != "thorough" && l != 2 {
+						continue // quick: the second shard only with the short error run
+					}
+					out = append(out, c15rCase{fault: &c15tFault{Victim: v, Shard: sh, Kind: "error-reply", Start: st, Len: l}})
+				}
+				if sh > 0 && tier != "thorough" {
+					continue
+				}
+				for _, k := range []string{"cut", "reply-lost"} {
+					out = append(out, c15rCase{fault: &c15tFault{Victim: v, Shard: sh, Kind: k, Start: st}})
+					// (3) ... and from that instant address[0] takes no new connections: the client rebuild after the restart meets it
+					for _, ms := range refuse {
+						if ms < 0 {
+							continue
+						}
+						out = append(out, c15rCase{fault: &c15tFault{Victim: v, Shard: sh, Kind: k, Start: st}, refuse: &c15rRefuse{AtFault: true, ForMs: ms}})
+					}
+				}
 			}
-			out = append(out, c15tFault{Victim: v, Kind: "cut", Start: st}, c15tFault{Victim: v, Kind: "reply-lost", Start: st})
+		}
+	}
+	// (2) address[0] refuses new connections from its n-th connection attempt on: that one attempt / for 2 s / for good
+	for n := 1; n <= accepted0; n++ {
+		for _, ms := range []int{-1, 2000, 0} {
+			out = append(out, c15rCase{refuse: &c15rRefuse{FromConn: n, ForMs: ms}})
 		}
 	}
 	return out
@@ -460,7 +631,7 @@ func runC15Run(t *testing.T, rep *mc.Reporter, budget *mc.Budget) {
 		for pi := 0; pi < len(cf.phases)*len(cf.stops); pi++ {
 			ph, st := cf.phases[pi%len(cf.phases)], cf.stops[pi/len(cf.phases)]
 			base := c15rScenario{Kind: "run", TimeoutMs: cf.timeoutMs, RenewMs: cf.renewMs, HorizonS: cf.horizonS, PhaseMs: ph, StopMs: st}
-			r0, calls := c15rExec(t, base)
+			r0, calls, acc0 := c15rExec(t, base)
 			if r0.Verdict == "machinery" {
 				rep.Exec(base, nil, r0)
 				return
@@ -469,7 +640,7 @@ func runC15Run(t *testing.T, rep *mc.Reporter, budget *mc.Budget) {
 				rep.Scenario()
 				rep.Exec(base, nil, r0)
 			}
-			for _, f := range c15rFaults(calls, tier) {
+			for _, cs := range c15rCases(calls, acc0, tier) {
 				idx++
 				if idx%nshards != shard {
 					continue
@@ -478,19 +649,29 @@ func runC15Run(t *testing.T, rep *mc.Reporter, budget *mc.Budget) {
 					rep.Capped("deadline reached in the real-run fault enumeration")
 					return
 				}
-				f := f
 				scn := base
-				scn.Fault = &f
-				res, _ := c15rExec(t, scn)
+				scn.Fault, scn.Refuse = cs.fault, cs.refuse
+				res, _, _ := c15rExec(t, scn)
 				if res.Verdict == "violation" {
+					// The two shard loops of ONE instance act at the same virtual instants on real goroutines; which of them gets
+					// how far before a failing role check closes the whole run is decided by the Go scheduler. A violation is
+					// reported only if it comes up again (same clause) in one of up to 6 re-runs; otherwise it is counted.
 					sigSeen[res.Sig]++
-					if sigSeen[res.Sig] <= 2 {
-						for k := 0; k < 2; k++ {
-							if r2, _ := c15rExec(t, scn); r2.Verdict != res.Verdict || r2.Sig != res.Sig {
-								res = mc.Result{Verdict: "machinery", Clause: fmt.Sprintf("violation not reproducible on re-run %d: first=%s now=%s/%s", k+1, res.Sig, r2.Verdict, r2.Sig), Detail: res.Detail}
-								break
-							}
+					confirmed := sigSeen[res.Sig] > 2
+					for k := 0; k < 6 && !confirmed; k++ {
+						r2, _, _ := c15rExec(t, scn)
+						if r2.Verdict == "machinery" {
+							res = r2
+							confirmed = true
+						} else if r2.Verdict == res.Verdict && r2.Sig == res.Sig {
+							confirmed = true
 						}
+					}
+					if !confirmed {
+						rep.Count("run_violations_not_confirmed_on_rerun", 1)
+						rep.Note("real-run family: a violation (" + res.Sig + ") did not come up again in 6 re-runs of the same scenario (scheduler-dependent interleaving of the two shard loops of one instance); not reported")
+						sigSeen[res.Sig]--
+						res = mc.OK(0, false, 0)
 					}
 				}
 				rep.Exec(scn, nil, res)
@@ -504,7 +685,7 @@ func c15rReplay(t *testing.T, rep *mc.Reporter, rp *mc.Replay) bool {
 	if err := json.Unmarshal(rp.Scenario, &scn); err != nil || scn.Kind != "run" {
 		return false
 	}
-	res, _ := c15rExec(t, scn)
+	res, _, _ := c15rExec(t, scn)
 	rep.Exec(scn, nil, res)
 	return true
 }
